@@ -33,7 +33,6 @@ SAME_SLOT_FNS = {
     'scheduler::SharedGlobals::sync_into_locked': 'shared globals map is filled from the same-named globals of sibling runtimes (same declaration)',
 }
 EXTERNAL_FNS = {
-    'runtime::cycle::<impl trust_runtime::runtime::core::Runtime>::apply_forced_values': 'forced values set through the control plane',
     'runtime::mesh::<impl trust_runtime::runtime::core::Runtime>::apply_mesh_updates': 'mesh updates from peer runtimes with the same declarations',
     'runtime::core::Runtime::write_access': 'VAR_ACCESS writes through the access API',
     'harness::harness::TestHarness::set_input': 'test harness input injection',
@@ -44,6 +43,9 @@ EXPECTED = {
     ('runtime::cycle::<impl trust_runtime::runtime::core::Runtime>::execute_cycle', 'set_retain'): {'coerced'},
     ('runtime::cycle::<impl trust_runtime::runtime::core::Runtime>::execute_cycle', 'set_instance_var'): {'coerced'},
     ('runtime::cycle::<impl trust_runtime::runtime::core::Runtime>::execute_cycle', 'set_local'): {'coerced'},
+    ('runtime::cycle::<impl trust_runtime::runtime::core::Runtime>::apply_forced_values', 'set_global'): {'coerced'},
+    ('runtime::cycle::<impl trust_runtime::runtime::core::Runtime>::apply_forced_values', 'set_retain'): {'coerced'},
+    ('runtime::cycle::<impl trust_runtime::runtime::core::Runtime>::apply_forced_values', 'set_instance_var'): {'coerced'},
     ('eval::call_function', 'set_local'): {'default', 'uncoerced'},
     ('eval::call_method', 'set_local'): {'default', 'uncoerced'},
     ('eval::call_function_block', 'set_instance_var'): {'uncoerced'},
